@@ -789,4 +789,14 @@ def rule_precision(ck):
     rule_double_precision(ck, 'C02-D1.double', modules=('csep.utils.calc',), what='values and bin edges')
 
 
-RULES = [rule_kernel, rule_tolerance, rule_tolerance_flow, rule_range, rule_callsites, rule_generators, rule_pure, rule_own_magnitudes_shared, rule_precision]
+def rule_out_of_range_reported(ck):
+    """a value below the first edge is *reported* (-1) and stays reported: where the magnitude index is used, the -1 never becomes a
+    position in an array (shared C03-D1 sentinel flow / C03-D5 rejection) - `out[unique(idx)] = counts` with a -1 among the indices
+    books the event on the last bin"""
+    from . import c03
+    ck.clause('D3 (shared C03-D1/D5: the out-of-range report is never used as an index)')
+    c03.rule_mag_sentinel(ck)
+    c03.rule_accumulation(ck)
+
+
+RULES = [rule_kernel, rule_tolerance, rule_tolerance_flow, rule_range, rule_callsites, rule_generators, rule_pure, rule_own_magnitudes_shared, rule_precision, rule_out_of_range_reported]
